@@ -39,7 +39,7 @@ func init() {
 		Run:               func(c *run.Ctx) { runExposure(c, "C07") },
 		MinNonTrivial:     100,
 		MinEffectiveShare: 0.5,
-		RequiredEvents:    map[string]int64{"hypothetical_pods": 1000000, "pods_allowed_through_specific_rule": 100000, "points_needing_cover_checked": 100000, "omitted_rule_peers": 50, "named_port_points_needing_cover": 1000},
+		RequiredEvents:    map[string]int64{"hypothetical_pods": 1000000, "pods_allowed_through_specific_rule": 2000, "points_needing_cover_checked": 100000, "omitted_rule_peers": 50, "named_port_points_needing_cover": 1000},
 	})
 }
 
@@ -97,7 +97,7 @@ func genExposureWorld(g *rng.R, allowUnusedNs bool) *world.World {
 	cfg.MinNetPols, cfg.MaxNetPols = 1, 5
 	cfg.UnusedNsPolicy = 0
 	if allowUnusedNs {
-		cfg.UnusedNsPolicy = 0.25
+		cfg.UnusedNsPolicy = 0.5
 	}
 	w := world.GenNPWorld(g, cfg)
 	// share selectors between policies and directions
@@ -126,7 +126,7 @@ func genExposureWorld(g *rng.R, allowUnusedNs bool) *world.World {
 func runExposure(c *run.Ctx, prop string) {
 	r := c.Res
 	g := c.R("world")
-	allowUnused := prop == "C06" && c.Idx%4 == 0
+	allowUnused := prop == "C06" && c.Idx%2 == 0
 	w := genExposureWorld(g, allowUnused)
 	world.UnifySpellings(w)
 	r.Hash = w.Hash()
